@@ -19,6 +19,10 @@ FC = "pasfmt::FormattingConfig"
 DEBUGGY = ("core::fmt::Debug", "core::clone::Clone", "core::cmp::PartialEq", "core::hash::Hash")
 
 
+# names the rules about reconstruct_solution refer to themselves: never spliced into it
+RS_KEEP = ("reconstruct_solution", "get_formatting_data_mut", "get_formatting_data", "clamp", "get_tokens", "get")
+
+
 def nondebug(name):
     return not any(d in name for d in DEBUGGY) and "optimising_line_formatter::debug::" not in name
 
@@ -124,9 +128,9 @@ def check_c06(prog, rep, tier, cfg):
               [OLF_FMT + "::{closure#0}", RCL, TS + "max_one_either_side::{closure#0}", TS + "max_one_either_side::{closure#1}"] + CURSOR_BODIES,
               "original spacing may only be read by max_one_either_side (0-vs-some between literal-like tokens), the length table and emission")
     # the one place where the original newline count influences the result: clamp(1,2) on the first token of a line
-    rs = prog.body(OLF + "InternalOptimisingLineFormatter::reconstruct_solution")
+    rs = prog.inlined(OLF + "InternalOptimisingLineFormatter::reconstruct_solution", keep=RS_KEEP)      # a per-decision helper is spliced in
     if rep.check(rs is not None, R, "anchor:reconstruct_solution", "reconstruct_solution not found"):
-        rd = [a for a in prog.field_accesses(FD, "newlines_before", within={rs.npath}) if a[3] == "read"]
+        rd = [a for a in prog.field_accesses(FD, "newlines_before", bodies=[rs]) if a[3] == "read"]
         ok = len(rd) == 1
         if ok:
             (bd, bb, i, kind, s) = rd[0]
@@ -175,13 +179,13 @@ def check_c06(prog, rep, tier, cfg):
     R = "C06.b"
     if rs is not None:
         loops = rs.loops()
-        nlw = {a[1] for a in prog.field_accesses(FD, "newlines_before", within={rs.npath}) if a[3].startswith("write")}
+        nlw = {a[1] for a in prog.field_accesses(FD, "newlines_before", bodies=[rs]) if a[3].startswith("write")}
         dl = [(h, L) for h, L in loops.items() if nlw and nlw <= L]
         dl.sort(key=lambda x: len(x[1]))
         if rep.check(len(dl) >= 1, R, "one-decision-loop", "reconstruct_solution has no loop over the decisions that contains the counter stores"):
             h, L = dl[-1]
             for f in ("newlines_before", "indentations_before", "continuations_before"):
-                st = {a[1] for a in prog.field_accesses(FD, f, within={rs.npath}) if a[3].startswith("write")}
+                st = {a[1] for a in prog.field_accesses(FD, f, bodies=[rs]) if a[3].startswith("write")}
                 cyc = bfs_cycle(rs, h, L, st)
                 rep.check(bool(st) and cyc is None, R, "every-decision-overwrites:" + f, "a decision of a solved line can leave the input's %s in place" % f,
                           instance={"field": f, "store_blocks": len(st)})
